@@ -56,13 +56,14 @@ def patch_ldm_time():
 class LdmUnderTest:
     """A real LDMFacility built by LDMFactory on the virtual clock."""
 
-    def __init__(self, cfg, backend="Dictionary", t0_utc_ms=T0_UTC_MS):
+    def __init__(self, cfg, backend="Dictionary", t0_utc_ms=T0_UTC_MS, service="Reactive"):
         from flexstack.facilities.local_dynamic_map.factory import LDMFactory
         from flexstack.facilities.local_dynamic_map.ldm_classes import Location
         patch_ldm_time()
         VCLOCK.set_ms(t0_utc_ms)
         self.cfg = cfg
         self.backend = backend
+        self.service = service       # "Reactive" | "Thread" (the caller replaces threading in ldm_service_threads first)
         self.tmpdir = None
         loc = Location.initializer(latitude=cfg["lat"], longitude=cfg["lon"], altitude_value=cfg["alt"],
                                    relevance_distance=cfg["rd"])
@@ -72,11 +73,11 @@ class LdmUnderTest:
             cwd = os.getcwd()
             os.chdir(self.tmpdir)
             try:
-                self.ldm = LDMFactory().create_ldm(loc, "Reactive", "Reactive", "TinyDB")
+                self.ldm = LDMFactory().create_ldm(loc, "Reactive", service, "TinyDB")
             finally:
                 os.chdir(cwd)
         else:
-            self.ldm = LDMFactory().create_ldm(loc, "Reactive", "Reactive", backend)
+            self.ldm = LDMFactory().create_ldm(loc, "Reactive", service, backend)
         self.if3 = self.ldm.if_ldm_3
         self.if4 = self.ldm.if_ldm_4
         self.db = self.ldm.ldm_maintenance.data_containers
